@@ -639,6 +639,42 @@ def r7_guard_dominance(ctx, funcs, rule='R7'):
     return n
 
 
+def r7_selected_edited(ctx, funcs, rule='R7e'):
+    """funcs: package steps whose whole purpose is to edit the descriptor of each selected resource (update_resource,
+    update_schema, set_primary_key - confirmed by reading): the converse of R7."""
+    run = ctx.run
+    run.rule(rule, 'SELECTED-IS-EDITED: in a step that exists to edit the descriptors of the selected resources, every path of the '
+                   'descriptor loop on which the selector matched performs the edit: no further condition decides, besides the '
+                   'selector, which resources are treated (the same selector would then select different resources in this step '
+                   'than in every other)')
+    n = 0
+    for f in funcs:
+        f = ctx.N(f)
+        loops = _descr_loops(ctx, f)
+        seen_match = False
+        for loop in loops:
+            at = Atomizer(ctx.repo, ctx.res, f, loop.target.id, 'descr', scope_node=loop)
+            if not at.matchers:
+                continue
+            aliases = _alias_closure(f, loop.target.id)
+            for p in Enumerator(where=f.qualname).body_paths(loop):
+                val = at.path_atoms(p)
+                if val is None or p.term == RAISE or val.get(('MATCH',)) is not True:
+                    continue
+                seen_match = True
+                writes = []
+                for it in p.items:
+                    if it.kind in ('stmt', 'loop', 'loop_exit', 'opaque_if'):
+                        writes.extend(descriptor_writes(it.node, aliases))
+                n += 1
+                run.check(bool(writes), rule, where(ctx.repo, loop), f.qualname, fmt_atoms(val) + ' -> edit',
+                          'a resource the selector matched is left as it is on some path (%s): what this step treats is no longer '
+                          'what its `resources` argument selects' % fmt_atoms(val), path=p.describe())
+        if not seen_match:
+            raise AnalysisError('%s: no path of a descriptor loop on which the selector matched' % f.qualname)
+    return n
+
+
 # ---------------------------------------------------------------------- R26 append order
 
 def r26_append_order(ctx, rule='R26'):
